@@ -236,6 +236,22 @@ theorem header_lookup_case_insensitive (H : Dic) (n n' : Bytes) (h : lowerAscii 
   unfold header
   rw [← capitalized_lower n, ← capitalized_lower n', h]
 
+/-- **empty_header_kept** (after the repair of `readHeaders`).  A header that travels with an empty value (`X-Empty: `
+CRLF) is part of what the reader stores: it is present (`hasHeader`) with the empty value, on either side. -/
+theorem empty_header_kept (n rest : Bytes) (h : Dic) (hn : WFName n) (hfit : n.length + 3 ≤ 16001) (i : Inp) (hi : Live i)
+    (hd : i.data = n ++ [58, 32] ++ crlf ++ crlf ++ rest) :
+    ∃ i' : Inp, readHeaders i h = (storeHeader h n [], i') ∧ i'.data = rest ∧
+      hasHeader (storeHeader h n []) n = true ∧ header (storeHeader h n []) n = [] := by
+  have hlen : i.data.length = n.length + 6 + rest.length := by rw [hd]; simp [crlf]; omega
+  obtain ⟨h1, h2⟩ := readHeaders_step_empty i.data.length i h [] [] n (crlf ++ rest) hi hn hfit (by rw [hd]; simp [List.append_assoc])
+  obtain ⟨f0, hf0⟩ : ∃ f0, i.data.length = f0 + 1 := ⟨i.data.length - 1, by omega⟩
+  have hi' : Live (i.advance (n.length + 4)) := hi
+  obtain ⟨h3, h4⟩ := readHeaders_end f0 (i.advance (n.length + 4)) (storeHeader h n []) n [] rest hi' h2
+  refine ⟨_, ?_, h4, ?_, ?_⟩
+  · unfold readHeaders; rw [h1, hf0, h3]
+  · unfold hasHeader storeHeader; rw [dicGet_dicSet_same]; rfl
+  · unfold header storeHeader; rw [dicGet_dicSet_same]; rfl
+
 /-! ## responses: what the handler produced is what `Http::request` returns -/
 
 /-- status codes for which `Http::request` returns the response it read: not the interim 100 (skipped), and not a
@@ -532,7 +548,7 @@ theorem sender_chunked_conforms (blk : Nat) (hb : 0 < blk) (hb2 : blk < 21474836
 returns the payload of EVERY chunked body of the RFC 7230 grammar (size lines in upper or lower case, with leading
 zeros — whoever the sender is), on any live connection, i.e. for every fragmentation, and stops exactly behind it. -/
 theorem reader_accepts_rfc_chunked (H : Dic) (w b rest : Bytes) (hcb : Spec.ChunkedBody w b) (hb : b.length < 2147483648)
-    (hcl : hasHeader H sContentLength = false) (hte : header H sTransferEncoding = sChunked)
+    (hcl : hasHeader H sContentLength = false) (hte : teChunked (header H sTransferEncoding) = true)
     (i : Inp) (hi : Live i) (hd : i.data = w ++ rest) :
     ∃ i' : Inp, readBody H i = (b, i') ∧ i'.data = rest ∧ Live i' := by
   obtain ⟨bl, hbl, heq, hrest⟩ := readChunked_rfc recvBlock recvBlock_pos w b hcb (i.data.length + 1) i [] rest hi
@@ -548,7 +564,7 @@ theorem reader_accepts_rfc_chunked (H : Dic) (w b rest : Bytes) (hcb : Spec.Chun
 /-- the same as a `BodyReads` fact: a request or response whose body is any RFC 7230 chunked body is inside
 `wire_request_exact`, `serveStep_exact` and `keepalive_seq` -/
 theorem reads_of_rfc_chunked (H : Dic) (w b : Bytes) (hcb : Spec.ChunkedBody w b) (hb : b.length < 2147483648)
-    (hcl : hasHeader H sContentLength = false) (hte : header H sTransferEncoding = sChunked) : BodyReads H w b :=
+    (hcl : hasHeader H sContentLength = false) (hte : teChunked (header H sTransferEncoding) = true) : BodyReads H w b :=
   fun i rest hi hd => reader_accepts_rfc_chunked H w b rest hcb hb hcl hte i hi hd
 
 /-! ## the blocking socket loops complete partial transfers -/
